@@ -46,8 +46,23 @@ def cas_get_mut_template(succ_ord, weak):
 CAS_CASES = [("acq", False, "holds"), ("acq", True, "holds"), ("rlx", False, "violation"), ("acqrel", False, "holds")]
 
 
+def plain_get_mut_template():
+    """get_mut whose uniqueness test reads the count word non-atomically: a data race with every concurrent RMW"""
+    r = BitVec("r7", 64)
+    rd = {"kind": "R", "loc": ("cnt", "a0"), "ord": "na", "rval": r, "op": "plain-read"}
+    return [{"pc": [r == 1], "events": [rd], "result": ("ret", _V("Some")), "fn": "litmus"},
+            {"pc": [r != 1], "events": [rd], "result": ("ret", _V("None")), "fn": "litmus"}]
+
+
 def run():
     bad = []
+    T = {"drop": drop_template("rel", "acq-load"), "get_mut": plain_get_mut_template()}
+    sc = rc11.Scenario(T, [["get_mut_write", "drop"], ["read", "drop"]], {}, "litmus plain count read")
+    r = rc11.decide(sc, 60000)
+    if r["verdict"] != "violation" or not any("count word" in d for _, d in r.get("violated", [])):
+        bad.append(f"plain read of the count: expected a race on the count word, encoder says {r['verdict']} {r.get('violated')}")
+    elif not rc11.check_witness(r["witness"])[0]:
+        bad.append("plain read of the count: witness rejected by the independent checker: " + str(rc11.check_witness(r["witness"])[1]))
     for succ_ord, weak, want in CAS_CASES:
         T = {"drop": drop_template("rel", "acq-load"), "get_mut": cas_get_mut_template(succ_ord, weak)}
         sc = rc11.Scenario(T, [["get_mut_write", "drop"], ["read", "drop"]], {}, f"litmus cas {succ_ord}/{weak}")
